@@ -27,6 +27,25 @@ def mjForwardSkip (skipstage skipsensor : Int) : Prog :=
 def mjInverseSkip (skipstage skipsensor : Int) : Prog :=
   prog "mj_inverseSkip" [.const skipstage "", .const skipsensor ""]
 
+/-- second layer: the translated body of a stage function (with its static helpers inlined), analysed on its own
+    against the leaf footprints to justify the stage's entry in the footprint table -/
+def subProg (name : String) : Prog :=
+  inlineN Gen.Pipeline.subTable passes (.call name name [])
+
+def mjFwdConstraint : Prog := subProg "mj_fwdConstraint"
+def mjInvConstraint : Prog := subProg "mj_invConstraint"
+
+/-- source text of the switch scrutinee of mj_fwdConstraint; the solvers the engine accepts -/
+def solverScrutinee : String := "(mjtSolver) m->opt.solver"
+def solverNames : List String := ["mjSOL_PGS", "mjSOL_CG", "mjSOL_NEWTON"]
+
+/-- value of the model-constant comparisons `m->opt.solver == X` / `m->opt.solver != X` when the solver is `sol` -/
+def solverGuard (sol : String) (s : String) : Option Bool :=
+  solverNames.findSome? fun n =>
+    if s = "m->opt.solver == " ++ n then some (sol == n)
+    else if s = "m->opt.solver != " ++ n then some (sol != n)
+    else none
+
 /-- source text of the switch scrutinee of mj_step and of the two comparisons of mj_step2 -/
 def integScrutinee : String := "(mjtIntegrator) m->opt.integrator"
 def isImplicit : String := "m->opt.integrator == mjINT_IMPLICIT"
@@ -40,6 +59,8 @@ structure Cfg where
   integrator : Option String := none
   /-- further guard leaves assumed constant: (source text, value) -/
   extra : List (String × Bool) := []
+  /-- `m->opt.solver` if fixed: "mjSOL_PGS" | "mjSOL_CG" | "mjSOL_NEWTON" (only the second layer depends on it) -/
+  solver : Option String := none
 
 /-- the partial valuation of a configuration.  Always: no control callback is installed
     (`mjcb_control = NULL`; user callbacks are outside the properties' inputs). -/
@@ -50,16 +71,22 @@ def known (c : Cfg) : Known :=
       else match c.extra.lookup s with
         | some b => some b
         | none =>
-          match c.integrator with
-          | none => none
-          | some i =>
-            if s = isImplicit then some (i == "mjINT_IMPLICIT")
-            else if s = isImplicitFast then some (i == "mjINT_IMPLICITFAST")
-            else none
-    label := fun on => if on = integScrutinee then c.integrator else none
+          match c.solver.bind (fun sol => solverGuard sol s) with
+          | some b => some b
+          | none =>
+            match c.integrator with
+            | none => none
+            | some i =>
+              if s = isImplicit then some (i == "mjINT_IMPLICIT")
+              else if s = isImplicitFast then some (i == "mjINT_IMPLICITFAST")
+              else none
+    label := fun on => if on = integScrutinee then c.integrator else if on = solverScrutinee then c.solver else none
     data := fun s => c.extra.lookup s }
 
 /-- the analysis of an inlined program under a configuration -/
 def analyze (c : Cfg) (p : Prog) : AFlow Grp := abs (ctx c.sleeping) (known c) [] p
+
+/-- the analysis of a second-layer program (models without sleeping) under a configuration -/
+def analyzeS (c : Cfg) (p : Prog) : AFlow Grp := abs (ctxS c.solver) (known c) [] p
 
 end MjProof.Pipeline
